@@ -79,33 +79,66 @@ func ProductSpecs(tier string) []*ProductSpec {
 	}
 	// node48 released (sparse slot layout) by one tree, node48 acquired by another
 	add("n48down-n16up",
-		func() *Universe { return pAlpha("N48@13sparse", FanSpec{Hold: 13, Extra: 27, Present: np, Absent: na, Fill: 52}, "string") },
+		func() *Universe {
+			return pAlpha("N48@13sparse", FanSpec{Hold: 13, Extra: 27, Present: np, Absent: na, Fill: 52}, "string")
+		},
 		func() *Universe { return pU16("N16@16", FanSpec{Hold: 16, Present: na, Absent: np, Fill: 52}) })
 	// node256 released, node256 acquired
 	add("n256down-n48up",
-		func() *Universe { return pU8("N256@38", FanSpec{Hold: 38, Extra: 11, Present: np, Absent: na, Fill: 52}) },
-		func() *Universe { return pAlpha("N48@48", FanSpec{Hold: 48, Present: na, Absent: np, Path: P12, Fill: 52}, "[]byte") })
+		func() *Universe {
+			return pU8("N256@38", FanSpec{Hold: 38, Extra: 11, Present: np, Absent: na, Fill: 52})
+		},
+		func() *Universe {
+			return pAlpha("N48@48", FanSpec{Hold: 48, Present: na, Absent: np, Path: P12, Fill: 52}, "[]byte")
+		})
 	// the released node carries a compressed path, the acquiring node has none (and vice versa above)
 	add("n256down-path/n48up-nopath",
-		func() *Universe { return pAlpha("N256@38p", FanSpec{Hold: 38, Extra: 11, Present: np, Absent: na, Path: "pp", Fill: 52}, "string") },
+		func() *Universe {
+			return pAlpha("N256@38p", FanSpec{Hold: 38, Extra: 11, Present: np, Absent: na, Path: "pp", Fill: 52}, "string")
+		},
 		func() *Universe { return pU8("N48@48", FanSpec{Hold: 48, Present: na, Absent: np, Fill: 52}) })
 	add("n48down-path/n16up-nopath",
-		func() *Universe { return pAlpha("N48@13p", FanSpec{Hold: 13, Extra: 6, Present: np, Absent: na, Path: P12, Fill: 52}, "string") },
+		func() *Universe {
+			return pAlpha("N48@13p", FanSpec{Hold: 13, Extra: 6, Present: np, Absent: na, Path: P12, Fill: 52}, "string")
+		},
 		func() *Universe { return pU8("N16@16", FanSpec{Hold: 16, Present: na, Absent: np, Fill: 52}) })
 	// node16 released (after having been full), node4/node16 churn in the other trees
 	add("n16down-n4up",
-		func() *Universe { return pF64("N16@4full", FanSpec{Hold: 4, Extra: 12, Present: np, Absent: na, Fill: 20}) },
+		func() *Universe {
+			return pF64("N16@4full", FanSpec{Hold: 4, Extra: 12, Present: np, Absent: na, Fill: 20})
+		},
 		func() *Universe { return pI64("N4@4", FanSpec{Hold: 4, Present: na, Absent: np, Fill: 20}) })
 	add("n4churn-mixed",
 		func() *Universe { return pCompound("T4") },
 		func() *Universe { return pColl("CASE4") })
+	// both trees ACQUIRE the same class (a shrink acquires the smaller node, a grow the larger one): a node that was put
+	// into a pool while still linked into its tree is handed to the other tree here
+	add("n256down-n16up",
+		func() *Universe {
+			return pU8("N256@38", FanSpec{Hold: 38, Extra: 11, Present: np, Absent: na, Fill: 52})
+		},
+		func() *Universe { return pU16("N16@16", FanSpec{Hold: 16, Present: na, Absent: np, Fill: 52}) })
+	add("n48down-n4up",
+		func() *Universe {
+			return pAlpha("N48@13", FanSpec{Hold: 13, Extra: 4, Present: np, Absent: na, Fill: 52}, "string")
+		},
+		func() *Universe { return pI64("N4@4", FanSpec{Hold: 4, Present: na, Absent: np, Fill: 20}) })
+	add("n16down-n4split",
+		func() *Universe {
+			return pF64("N16@4full", FanSpec{Hold: 4, Extra: 12, Present: np, Absent: na, Fill: 20})
+		},
+		func() *Universe { return pCompound("T4") })
 	if th {
 		add("three-trees",
-			func() *Universe { return pAlpha("N48@13sparse", FanSpec{Hold: 13, Extra: 27, Present: 1, Absent: 1, Fill: 52}, "string") },
+			func() *Universe {
+				return pAlpha("N48@13sparse", FanSpec{Hold: 13, Extra: 27, Present: 1, Absent: 1, Fill: 52}, "string")
+			},
 			func() *Universe { return pU16("N16@16", FanSpec{Hold: 16, Present: 1, Absent: 1, Fill: 52}) },
 			func() *Universe { return pU8("N256@38", FanSpec{Hold: 38, Extra: 11, Present: 1, Absent: 1, Fill: 52}) })
 		add("n48down-n48up-sameclass",
-			func() *Universe { return pU8("N48@13", FanSpec{Hold: 13, Extra: 4, Present: 2, Absent: 2, Order: 1, Fill: 52}) },
+			func() *Universe {
+				return pU8("N48@13", FanSpec{Hold: 13, Extra: 4, Present: 2, Absent: 2, Order: 1, Fill: 52})
+			},
 			func() *Universe { return pU16("N16@16b", FanSpec{Hold: 16, Present: 2, Absent: 2, Order: 2, Fill: 52}) })
 	}
 	return out
